@@ -7,10 +7,11 @@ for sid in sorted(caught):
     meta_p = f'/verif/seeded/{sid}/meta.json'
     needs = ''
     if os.path.exists(meta_p):
-        needs = json.load(open(meta_p)).get('needs_to_manifest', '')
+        m = json.load(open(meta_p))
+        needs = m.get('needs_to_manifest') or ('revert of ' + m.get('reverts_commit', '') + ': ' + m.get('what_returns', ''))
         needs = re.sub(r'\s+', ' ', needs)[:230]
     by, how = caught[sid]
-    rows.append(f"| `seeded/{sid}` | {sid.split('-')[0]} | {needs.replace('|', '/')} | {by} | {how.replace('|', '/')} |")
+    rows.append(f"| `seeded/{sid}` | {(json.load(open(meta_p)).get('breaks_property') if os.path.exists(meta_p) else sid.split('-')[0])} | {needs.replace('|', '/')} | {by} | {how.replace('|', '/')} |")
 s = open('/verif/DESIGN.md').read()
 b, e = '<!-- SEEDED-TABLE-BEGIN -->', '<!-- SEEDED-TABLE-END -->'
 s = s[:s.index(b) + len(b)] + '\n' + '\n'.join(rows) + '\n' + s[s.index(e):]
